@@ -30,7 +30,7 @@ META = {
     "assumptions": [],
     "level_text": "Static: table folding vs specification, language-level identity/rejection, symbolic summary of the rewrite, "
                   "def-use of the flag. All strings, all L, M in 1..3.",
-    "level_note": "Decides the per-token map; combined with C13/N1 (single token source) this gives the string-level statement.",
+    "level_note": "M6 shares the cache-shape rule of C08 (a rejected symbol is rejected every time). Decides the per-token map; combined with C13/N1 (single token source) this gives the string-level statement.",
     "technique": "constant folding + regular-language disjointness/inclusion + symbolic summary + def-use classification",
 }
 
@@ -328,6 +328,18 @@ def run(ctx, rep):
     if not n_calls:
         rep.ob("M5", False, dec_f.node, dec_f, construct="per-token rewrite", witness="modernize_symbol is never applied: compatible=True has no effect", key="rewrite-missing")
     rep.floor("M5", 2)
+    # ---- M6: "without the flag such strings are rejected with DecoderError": every time, not only the first -- what the
+    # symbol cache stores has the shape its readers unpack, never the None of a rejected (e.g. legacy) symbol (C08/EST shared)
+    from sa.core import Report
+    from rules import C08
+    from rules.shared import import_obligations
+    sub = Report("C18")
+    C08.run(ctx, sub)
+    keep = Report("C18")
+    keep.obs = [o for o in sub.obs if o.rule == "EST" and "CACHE_SHAPE" in o.key]
+    if not keep.obs:
+        raise AnalysisError("no symbol-cache store found in the decoder region (anchor of M6 lost)")
+    import_obligations(rep, keep, {"EST": "M6"})
     rep.analysed.update({"legacy_entries": len(got), "dispatch_cases": kinds})
 
 
